@@ -169,6 +169,18 @@ func (p *Proc) evalCall(ec *ectx, call *ast.CallExpr) Val {
 		}
 		var recv *Val
 		if recvExpr != nil {
+			// boxed library accumulator with a pointer-receiver method: pass the cell's address
+			if id, ok := ast.Unparen(recvExpr).(*ast.Ident); ok && ec.info != nil {
+				if v, ok := ec.info.Uses[id].(*types.Var); ok && p.boxed[v] && isBuilderType(v.Type()) {
+					if rs := fn.Type().(*types.Signature).Recv(); rs != nil && isPointer(rs.Type()) {
+						if addr, ok := ec.st.vars[v]; ok {
+							ptr := Val{T: addr, Typ: types.NewPointer(v.Type())}
+							args := p.evalArgs(ec, fn.Type().(*types.Signature), call)
+							return p.callFunc(ec, fn, &ptr, args, call)
+						}
+					}
+				}
+			}
 			r := p.eval(ec, recvExpr)
 			recv = &r
 		}
